@@ -591,8 +591,15 @@ class Engine(object):
         return snapshot(obj)
 
 
+def _observable(name):
+    """attributes that make up the observable state of a library object: the public ones and Vector's storage `_v`.  Other private
+    attributes (lazily filled caches) are not observable by themselves - a stale or wrong cache shows in the answers, which is what
+    the repeated-query clauses compare."""
+    return not name.startswith("_") or name == "_v"
+
+
 def snapshot(obj, _memo=None, depth=0):
-    """structural snapshot of an object graph (attributes, containers, symbolic
+    """structural snapshot of the observable state of an object graph (attributes, containers, symbolic
     leaves by term identity, object identities for aliasing)"""
     if _memo is None:
         _memo = {}
@@ -610,7 +617,7 @@ def snapshot(obj, _memo=None, depth=0):
     if isinstance(obj, dict):
         return ("dict",) + tuple((repr(k), snapshot(v, _memo, depth + 1)) for k, v in obj.items())
     if hasattr(obj, "__dict__"):
-        return (type(obj).__name__,) + tuple((k, snapshot(v, _memo, depth + 1)) for k, v in sorted(vars(obj).items()))
+        return (type(obj).__name__,) + tuple((k, snapshot(v, _memo, depth + 1)) for k, v in sorted(vars(obj).items()) if _observable(k))
     return ("opaque", type(obj).__name__)
 
 
